@@ -608,6 +608,14 @@ def translate_font_key(pe):
         return "nocache"
     has = [("glyph_ids" in names(k)) and ("font_data" in names(k)) for k in keys]
     if all(has):
+        # fail closed: the only key shape known to determine the glyph-id list is (font_data, tuple(glyph_ids))
+        def resolved(k):
+            if _is_name(k) and k.id in defs and len(defs[k.id]) == 1:
+                return ast.unparse(defs[k.id][0])
+            return ast.unparse(k)
+        shapes = {resolved(k) for k in keys}
+        if shapes != {"(font_data, tuple(glyph_ids))"}:
+            raise TranslateError(f"_FONT_CACHE key {sorted(shapes)} is not (font_data, tuple(glyph_ids))")
         return "keyed"
     if not any(has) and all(names(k) == {"font_data"} for k in keys):
         return "font-only"
@@ -615,19 +623,30 @@ def translate_font_key(pe):
 
 
 def translate_aes_open(pe):
-    """'eager' iff _open_pdf_reader calls patch_pypdf_fallback_aes() as a top-level statement before any
-    statement that constructs a PdfReader; 'lazy' iff only inside an except handler."""
+    """How _open_pdf_reader installs the AES fallback: 'Eager' (top-level call before any PdfReader(...)),
+    'OnEncrypted' (lazy handler + `if <reader>.is_encrypted: patch_pypdf_fallback_aes()` before the reader is
+    returned) or 'Lazy' (only in the DependencyError handler)."""
     src = Path(pe.__file__).read_text(encoding="utf-8")
     fn = [n for n in ast.parse(src).body if isinstance(n, ast.FunctionDef) and n.name == "_open_pdf_reader"]
     if len(fn) != 1:
         raise TranslateError("_open_pdf_reader not found")
-    for st in fn[0].body:
-        if isinstance(st, ast.Expr) and _call_name(st.value) == "patch_pypdf_fallback_aes" and not st.value.args:
-            return "eager"
+    is_patch = lambda st: isinstance(st, ast.Expr) and _call_name(st.value) == "patch_pypdf_fallback_aes" and not st.value.args
+    body = fn[0].body
+    seen_reader = False
+    for st in body:
+        if is_patch(st) and not seen_reader:
+            return "Eager"
         if any(_call_name(n) == "PdfReader" for n in ast.walk(st)):
-            break
+            seen_reader = True
+    for k, st in enumerate(body):
+        if (isinstance(st, ast.If) and not st.orelse and isinstance(st.test, ast.Attribute) and st.test.attr == "is_encrypted"
+                and _is_name(st.test.value) and any(is_patch(x) for x in st.body)
+                and all(isinstance(x, ast.Return) and _is_name(x.value, st.test.value.id) for x in body[k + 1:])
+                and body[k + 1:]):
+            # every path that returns this reader passes the test (the handler returns a reader opened AFTER patching)
+            return "OnEncrypted"
     if any(_call_name(n) == "patch_pypdf_fallback_aes" for n in ast.walk(fn[0])):
-        return "lazy"
+        return "Lazy"
     raise TranslateError("_open_pdf_reader never installs the AES fallback")
 
 
@@ -769,7 +788,7 @@ def gen_files(ctx, pe, aes):
     txt += f"(* pdf_extractor._ttf_get_glyph_features: _FONT_CACHE key = {fk} *)\n"
     txt += f"Definition font_key_has_gids : bool := {'true' if fk in ('keyed', 'nocache') else 'false'}.\n\n"
     txt += f"(* pdf_extractor._open_pdf_reader: AES fallback installation = {aes_mode} *)\n"
-    txt += f"Definition aes_patch_eager : bool := {'true' if aes_mode == 'eager' else 'false'}.\n\n"
+    txt += f"Definition aes_install_mode : aes_install := {aes_mode if aes_mode in ('Eager', 'OnEncrypted') else 'Lazy'}.\n\n"
     txt += "(* functools.lru_cache capacities *)\n"
     txt += "Definition lru_caps : list nat := [" + "; ".join(str(int(c or 0)) for c in caps.values()) + "].\n"
     ctx.gen_write("Gen/C15Skeleton.v", txt)
@@ -1009,7 +1028,7 @@ def font_cache_checks(ctx, pe, world, wirecard, variant, base):
         except Exception:  # noqa
             continue
     if font:
-        gid_sets = [[24, 25], [30, 31, 34], [24, 25, 30, 31, 34, 36, 37, 49, 51], [1], []]
+        gid_sets = [[24, 25], [30, 31], [25, 24], [30, 31, 34], [24, 25, 30, 31, 34, 36, 37, 49, 51], [1], []]
         for a, b in itertools.permutations(gid_sets, 2):
             pe._FONT_CACHE.clear()
             fresh = pe._ttf_get_glyph_features(font, list(b))
@@ -1125,7 +1144,7 @@ def workload_checks(ctx, pe, aes, world, docs, base, tmproot, special, aes0=Fals
     # ---- randomised pre-emptive schedules over mixed-format workloads
     sw = sys.getswitchinterval()
     nthreads = 8
-    rounds = ctx.n(2, 8)
+    rounds = ctx.n(2, 5)
     mism = []
     lock = threading.Lock()
     try:
@@ -1229,7 +1248,7 @@ def _run(ctx, tmproot, tmpdocs):
         "C15_skeleton_is_locked_protocol", "C15_skeleton_restored", "C15_skeleton_inside_wrapped",
         "C15_single_patch_target", "C15_skeleton_safe_k2", "C15_skeleton_safe_k3_after_history"])
     ctx.prove("C15/InstMemo.v", ["Gen/C15Skeleton.vo"], expected=[
-        "C15_round_key_cache_atomic", "C15_font_cache_key_has_glyph_ids", "C15_aes_fallback_installed_eagerly"])
+        "C15_round_key_cache_atomic", "C15_font_cache_key_has_glyph_ids", "C15_aes_fallback_install_safe"])
 
     # ---- documents and isolated baselines
     fx = [str(p) for p in fixtures()]
